@@ -34,6 +34,7 @@ package types
 //@   |   && wOkS(opts(opt).WithStorageWrapper, blobCt(old(bytes(nodeInfo.ServerEncryptionPrivateKeyBytes))), nodeInfo.CertificatePublicKeyPkix)
 //@   |   && bytes(nodeInfo.ServerEncryptionPrivateKeyBytes) == wPtS(opts(opt).WithStorageWrapper, blobCt(old(bytes(nodeInfo.ServerEncryptionPrivateKeyBytes))), nodeInfo.CertificatePublicKeyPkix)
 //@   ensures[C12,* nowrapper] old(nodeInfo.WrappingKeyId) != "" && opts(opt).WithStorageWrapper == nil ==> err != nil
+//@   ensures[C12,* emptykept] err == nil && old(len(nodeInfo.ServerEncryptionPrivateKeyBytes)) == 0 ==> len(nodeInfo.ServerEncryptionPrivateKeyBytes) == 0
 //@   modifies nodeInfo.ServerEncryptionPrivateKeyBytes, nodeInfo.WrappingKeyId
 
 //@ func types.LoadNodeInformation
@@ -48,6 +49,7 @@ package types
 //@   |   && bytes(ret.ServerEncryptionPrivateKeyBytes) == wPtS(opts(opt).WithStorageWrapper, blobCt(StGet("nodeinfo", id).ServerEncryptionPrivateKeyBytes), StGet("nodeinfo", id).CertificatePublicKeyPkix)
 //@   ensures[C12 clear] err == nil && StGet("nodeinfo", id).WrappingKeyId == "" ==>
 //@   |   bytes(ret.ServerEncryptionPrivateKeyBytes) == bytes(StGet("nodeinfo", id).ServerEncryptionPrivateKeyBytes)
+//@   ensures[C12 emptykept] err == nil && len(StGet("nodeinfo", id).ServerEncryptionPrivateKeyBytes) == 0 ==> len(ret.ServerEncryptionPrivateKeyBytes) == 0
 
 //@ func types.LoadNodeInformationSetByNodeId
 //@   trusted -- body not verified yet: the loop needs an invariant over the not-yet-processed input elements
@@ -181,7 +183,7 @@ package types
 //@   |   bytes(StGet("roots", "roots").Current.PrivateKeyPkcs8) == bytes(r.Current.PrivateKeyPkcs8)
 //@   |   && bytes(StGet("roots", "roots").Next.PrivateKeyPkcs8) == bytes(r.Next.PrivateKeyPkcs8)
 //@   |   && StGet("roots", "roots").WrappingKeyId == old(r.WrappingKeyId)
-//@   ensures[C12 sealed] err == nil && opts(opt).WithStorageWrapper != nil ==> StGet("roots", "roots").WrappingKeyId == wKeyId(opts(opt).WithStorageWrapper)
+//@   ensures[C12 sealed] err == nil && opts(opt).WithStorageWrapper != nil ==> StGet("roots", "roots").WrappingKeyId == wKeyId(opts(opt).WithStorageWrapper) && StGet("roots", "roots").WrappingKeyId != ""
 //@   |   && sealedBy(StGet("roots", "roots").Current.PrivateKeyPkcs8, opts(opt).WithStorageWrapper, r.Current.PrivateKeyPkcs8, r.Current.PublicKeyPkix)
 //@   |   && sealedBy(StGet("roots", "roots").Next.PrivateKeyPkcs8, opts(opt).WithStorageWrapper, r.Next.PrivateKeyPkcs8, r.Next.PublicKeyPkix)
 //@   ensures[C12 callerkept] err == nil ==> bytes(r.Current.PrivateKeyPkcs8) == old(bytes(r.Current.PrivateKeyPkcs8)) && bytes(r.Next.PrivateKeyPkcs8) == old(bytes(r.Next.PrivateKeyPkcs8)) && r.WrappingKeyId == old(r.WrappingKeyId)
@@ -207,9 +209,10 @@ package types
 //@   ensures[* clear] err == nil && opts(opt).WithStorageWrapper == nil ==>
 //@   |   bytes(StGet("nodeinfo", n.Id).ServerEncryptionPrivateKeyBytes) == bytes(n.ServerEncryptionPrivateKeyBytes)
 //@   |   && StGet("nodeinfo", n.Id).WrappingKeyId == n.WrappingKeyId
-//@   ensures[C12 sealed] err == nil && opts(opt).WithStorageWrapper != nil ==> StGet("nodeinfo", n.Id).WrappingKeyId == wKeyId(opts(opt).WithStorageWrapper)
+//@   ensures[C12 sealed] err == nil && opts(opt).WithStorageWrapper != nil ==> StGet("nodeinfo", n.Id).WrappingKeyId == wKeyId(opts(opt).WithStorageWrapper) && StGet("nodeinfo", n.Id).WrappingKeyId != ""
 //@   |   && (len(n.ServerEncryptionPrivateKeyBytes) > 0 ==> sealedBy(StGet("nodeinfo", n.Id).ServerEncryptionPrivateKeyBytes,
 //@   |         opts(opt).WithStorageWrapper, n.ServerEncryptionPrivateKeyBytes, n.CertificatePublicKeyPkix))
+//@   ensures[C12,* emptykept] err == nil && len(n.ServerEncryptionPrivateKeyBytes) == 0 ==> len(StGet("nodeinfo", n.Id).ServerEncryptionPrivateKeyBytes) == 0
 //@   ensures[C12 prevkeysealed] err == nil && opts(opt).WithStorageWrapper != nil && n.PreviousEncryptionKey != nil ==>
 //@   |   StGet("nodeinfo", n.Id).PreviousEncryptionKey != nil
 //@   |   && sealedBy(StGet("nodeinfo", n.Id).PreviousEncryptionKey.PrivateKeyPkcs8, opts(opt).WithStorageWrapper, n.PreviousEncryptionKey.PrivateKeyPkcs8, n.CertificatePublicKeyPkix)
@@ -227,7 +230,7 @@ package types
 //@   |   && StGet("token", s.Id).Id == s.Id && StGet("token", s.Id).State == s.State
 //@   ensures[* cleartime] err == nil && opts(opt).WithStorageWrapper == nil ==>
 //@   |   unMts(bytes(StGet("token", s.Id).CreationTimeMarshaled)) == tsTime(s.CreationTime) && StGet("token", s.Id).WrappingKeyId == s.WrappingKeyId
-//@   ensures[C12,* sealed] err == nil && opts(opt).WithStorageWrapper != nil ==> StGet("token", s.Id).WrappingKeyId == wKeyId(opts(opt).WithStorageWrapper)
+//@   ensures[C12,* sealed] err == nil && opts(opt).WithStorageWrapper != nil ==> StGet("token", s.Id).WrappingKeyId == wKeyId(opts(opt).WithStorageWrapper) && StGet("token", s.Id).WrappingKeyId != ""
 //@   |   && StGet("token", s.Id).CreationTime == nil
 //@   |   && exists mt String :: unMts(mt) == tsTime(s.CreationTime) && sealedBy(StGet("token", s.Id).CreationTimeMarshaled, opts(opt).WithStorageWrapper, mt, s.Id)
 //@   ensures[* failed] err != nil && s != nil ==> StHas("token", s.Id) == old(StHas("token", s.Id)) && StGet("token", s.Id) == old(StGet("token", s.Id))
@@ -261,7 +264,7 @@ package types
 //@   |   && bytes(StGet("nodecreds", n.Id).EncryptionPrivateKeyBytes) == bytes(n.EncryptionPrivateKeyBytes)
 //@   |   && bytes(StGet("nodecreds", n.Id).RegistrationNonce) == bytes(n.RegistrationNonce)
 //@   |   && StGet("nodecreds", n.Id).WrappingKeyId == n.WrappingKeyId
-//@   ensures[C12 sealed] err == nil && opts(opt).WithStorageWrapper != nil ==> StGet("nodecreds", n.Id).WrappingKeyId == wKeyId(opts(opt).WithStorageWrapper)
+//@   ensures[C12 sealed] err == nil && opts(opt).WithStorageWrapper != nil ==> StGet("nodecreds", n.Id).WrappingKeyId == wKeyId(opts(opt).WithStorageWrapper) && StGet("nodecreds", n.Id).WrappingKeyId != ""
 //@   |   && sealedBy(StGet("nodecreds", n.Id).CertificatePrivateKeyPkcs8, opts(opt).WithStorageWrapper, n.CertificatePrivateKeyPkcs8, n.CertificatePublicKeyPkix)
 //@   |   && sealedBy(StGet("nodecreds", n.Id).EncryptionPrivateKeyBytes, opts(opt).WithStorageWrapper, n.EncryptionPrivateKeyBytes, n.CertificatePublicKeyPkix)
 //@   |   && (len(n.RegistrationNonce) != 0 ==> sealedBy(StGet("nodecreds", n.Id).RegistrationNonce, opts(opt).WithStorageWrapper, n.RegistrationNonce, n.CertificatePublicKeyPkix))
@@ -293,6 +296,8 @@ package types
 
 //@ func types.lemmaNodeInfoStoreLoad
 //@   requires n != nil
+//@   split opts(opt).WithStorageWrapper == nil
+//@   split n.WrappingKeyId == ""
 //@   ensures[C12 roundtrip] serr == nil && lerr == nil ==> out != nil && out.Id == n.Id
 //@   |   && bytes(out.ServerEncryptionPrivateKeyBytes) == bytes(n.ServerEncryptionPrivateKeyBytes)
 //@   |   && bytes(out.CertificatePublicKeyPkix) == bytes(n.CertificatePublicKeyPkix) && bytes(out.RegistrationNonce) == bytes(n.RegistrationNonce)
@@ -307,6 +312,8 @@ package types
 
 //@ func types.lemmaNodeCredsStoreLoad
 //@   requires n != nil
+//@   split opts(opt).WithStorageWrapper == nil
+//@   split n.WrappingKeyId == ""
 //@   ensures[C12 roundtrip] serr == nil && lerr == nil ==> out != nil && out.Id == n.Id
 //@   |   && bytes(out.CertificatePrivateKeyPkcs8) == bytes(n.CertificatePrivateKeyPkcs8)
 //@   |   && bytes(out.EncryptionPrivateKeyBytes) == bytes(n.EncryptionPrivateKeyBytes)
